@@ -429,3 +429,186 @@ Definition cparse (ts : list ctoken) : option cexpr :=
   | Some (t, []) => Some t
   | _ => None
   end.
+
+(** * Meaning of a C tree (pure fragment)
+
+    Values and memory are those of the IR abstract machine (spec/IRSem.v): the two semantics share
+    the memory model ([index_value], [attribute_value], the environment) and differ in how operators
+    are typed.  C is more permissive than the IR machine: [_Bool] values are promoted to [int] in
+    arithmetic, comparisons accept doubles, [&&] [||] accept any scalar.  Signed overflow and
+    non-finite results are errors (undefined behaviour / excluded), as in the IR machine.
+    [TACO_MIN(a,b)] is the macro [((a) < (b) ? (a) : (b))]: the selected argument is evaluated a
+    second time (its reads appear twice in the trace).  [malloc]/[realloc] have no meaning as pure
+    expressions (they are the right-hand side of an assignment statement). *)
+
+Local Open Scope Z_scope.
+
+(** integer promotions (6.3.1.1) *)
+Definition promote (v : value) : value :=
+  match v with VBool b => VInt (if b then 1 else 0) | _ => v end.
+
+Definition to_double (v : value) : option F :=
+  match v with
+  | VInt z => Some (fcanon (Z2F z))
+  | VFloat f => Some f
+  | _ => None
+  end.
+
+(** usual arithmetic conversions (6.3.1.8) for + - *; pointer + integer (6.5.6) *)
+Definition c_arith (iop : Z -> Z -> Z) (fop : F -> F -> res F) (ptr : bool) (a b : value) : res value :=
+  match promote a, promote b with
+  | VInt x, VInt y => do z <- chk32 (iop x y); Ok (VInt z)
+  | VPtr blk o, VInt y => if ptr then Ok (VPtr blk (o + y)) else Err EIllTyped
+  | a', b' =>
+      match to_double a', to_double b' with
+      | Some f, Some g => do r <- fop f g; Ok (VFloat r)
+      | _, _ => Err EIllTyped
+      end
+  end.
+
+(** relational and equality operators (6.5.8, 6.5.9) on arithmetic operands *)
+Definition c_compare (zop : Z -> Z -> bool) (cop : option comparison -> bool) (a b : value) : res value :=
+  match promote a, promote b with
+  | VInt x, VInt y => Ok (VBool (zop x y))
+  | a', b' =>
+      match to_double a', to_double b' with
+      | Some f, Some g => Ok (VBool (cop (Bcompare f g)))
+      | _, _ => Err EIllTyped
+      end
+  end.
+
+Definition cmp_ops (o : binop) : option ((Z -> Z -> bool) * (option comparison -> bool)) :=
+  match o with
+  | OEq => Some (Z.eqb, fun c => match c with Some Eq => true | _ => false end)
+  | ONe => Some ((fun x y => negb (Z.eqb x y)), fun c => match c with Some Eq => false | _ => true end)
+  | OLt => Some (Z.ltb, fun c => match c with Some Lt => true | _ => false end)
+  | OGt => Some (Z.gtb, fun c => match c with Some Gt => true | _ => false end)
+  | OLe => Some (Z.leb, fun c => match c with Some Lt | Some Eq => true | _ => false end)
+  | OGe => Some (Z.geb, fun c => match c with Some Gt | Some Eq => true | _ => false end)
+  | _ => None
+  end.
+
+(** a scalar compared against 0 (6.5.13, 6.5.14, 6.5.15) *)
+Definition c_truth (v : value) : res bool :=
+  match v with
+  | VBool b => Ok b
+  | VInt z => Ok (negb (z =? 0))
+  | VFloat f => Ok (negb (Feqb f F0))
+  | VPtr _ _ => Ok true
+  | VNull => Ok false
+  | _ => Err EIllTyped
+  end.
+
+Definition c_neg (v : value) : res value :=
+  match promote v with
+  | VInt x => do z <- chk32 (- x); Ok (VInt z)
+  | VFloat f => do r <- chkfin (Bopp f); Ok (VFloat r)
+  | _ => Err EIllTyped
+  end.
+
+Definition c_cast (t : ty) (v : value) : res value :=
+  match t, promote v with
+  | TInteger, VInt z => Ok (VInt z)
+  | TFloat, VInt z => Ok (VFloat (fcanon (Z2F z)))
+  | TFloat, VFloat f => Ok (VFloat f)
+  | TBoolean, _ => do b <- c_truth v; Ok (VBool b)
+  | _, _ => Err EIllTyped       (* double -> int32_t truncation: not needed by the fragment *)
+  end.
+
+(** a decimal constant has type int if it fits, else long (6.4.4.1): [-2147483648] is the negation of
+    the long constant 2147483648.  Integer values are mathematical integers; every OPERATOR result
+    must fit int32_t (generated code only has int32_t objects), a constant must fit long. *)
+Definition chk_const (z : Z) : res Z :=
+  if (0 <=? z) && (z <=? 9223372036854775807) then Ok z else Err EOverflow.
+
+Definition c_sizeof (t : ty) : res value :=
+  match t with
+  | TInteger => Ok (VInt 4)
+  | TFloat => Ok (VInt 8)
+  | TBoolean => Ok (VInt 1)
+  | _ => Err EIllTyped
+  end.
+
+Fixpoint cexpr_sem (st : state) (c : cexpr) {struct c} : res (value * list event) :=
+  match c with
+  | CVar x =>
+      match lookup x (env st) with
+      | Some (t, Some v) => if typed t v then Ok (v, []) else Err EIllTyped
+      | _ => Err EUnbound
+      end
+  | CInt z => do z' <- chk_const z; Ok (VInt z', [])
+  | CFloat f => do f' <- chkfin f; Ok (VFloat f', [])
+  | CBool b => Ok (VBool b, [])
+  | CNeg a =>
+      do '(v, t1) <- cexpr_sem st a;
+      do r <- c_neg v;
+      Ok (r, t1)
+  | CBin OAnd a b =>
+      do '(va, t1) <- cexpr_sem st a;
+      do x <- c_truth va;
+      if x then
+        do '(vb, t2) <- cexpr_sem st b;
+        do y <- c_truth vb;
+        Ok (VBool y, t1 ++ t2)
+      else Ok (VBool false, t1)
+  | CBin OOr a b =>
+      do '(va, t1) <- cexpr_sem st a;
+      do x <- c_truth va;
+      if x then Ok (VBool true, t1)
+      else
+        do '(vb, t2) <- cexpr_sem st b;
+        do y <- c_truth vb;
+        Ok (VBool y, t1 ++ t2)
+  | CBin o a b =>
+      do '(va, t1) <- cexpr_sem st a;
+      do '(vb, t2) <- cexpr_sem st b;
+      do r <- match o with
+              | OAdd => c_arith Z.add fadd true va vb
+              | OSub => c_arith Z.sub fsub false va vb
+              | OMul => c_arith Z.mul fmul false va vb
+              | _ => match cmp_ops o with
+                     | Some (zop, cop) => c_compare zop cop va vb
+                     | None => Err EIllFormed
+                     end
+              end;
+      Ok (r, t1 ++ t2)
+  | CCast t a =>
+      do '(v, t1) <- cexpr_sem st a;
+      do r <- c_cast t v;
+      Ok (r, t1)
+  | CSizeof t => do r <- c_sizeof t; Ok (r, [])
+  | CIndex a i =>
+      do '(v, t1) <- cexpr_sem st a;
+      do '(iv, t2) <- cexpr_sem st i;
+      do '(r, t3) <- index_value st v (promote iv);
+      Ok (r, t1 ++ t2 ++ t3)
+  | CArrow a f =>
+      do '(v, t1) <- cexpr_sem st a;
+      do r <- attribute_value st v f;
+      Ok (r, t1)
+  | CCall2 (CVar m) a b =>
+      (* the two macros of taco_define_header; anything else is not a pure expression *)
+      let less := String.eqb m "TACO_MIN" in
+      if less || String.eqb m "TACO_MAX" then
+        do '(va, t1) <- cexpr_sem st a;
+        do '(vb, t2) <- cexpr_sem st b;
+        do c <- (if less then c_compare Z.ltb (fun c => match c with Some Lt => true | _ => false end) va vb
+                 else c_compare Z.gtb (fun c => match c with Some Gt => true | _ => false end) va vb);
+        do pick <- c_truth c;
+        (* ?: converts its 2nd and 3rd operands to a common type (6.5.15) *)
+        let both_int := match promote va, promote vb with VInt _, VInt _ => true | _, _ => false end in
+        let conv (v : value) : res value :=
+          if both_int then Ok (promote v)
+          else match to_double (promote v) with Some f => Ok (VFloat f) | None => Err EIllTyped end in
+        if pick then
+          do '(va', t3) <- cexpr_sem st a;     (* the macro evaluates the chosen argument again *)
+          do r <- conv va';
+          Ok (r, t1 ++ t2 ++ t3)
+        else
+          do '(vb', t3) <- cexpr_sem st b;
+          do r <- conv vb';
+          Ok (r, t1 ++ t2 ++ t3)
+      else Err EIllFormed
+  | CCall2 _ _ _ => Err EIllFormed
+  | CCall1 _ _ => Err EIllFormed
+  end.
